@@ -112,38 +112,25 @@ def main(tier, replay):
 
             seen_cls = {}
             failed_lines = set()
-            # confirm every failing history by a concrete replay (the generator is deterministic per
-            # (seed, history)): a failure that does not reproduce is a timing effect of this run
-            # (concurrent batch-get workers / asynchronous lock resolution under machine load); it is
-            # counted in the evidence, not reported.
+            # every failing history is re-run once (the generator is deterministic per (seed, history)); the
+            # outcome is only RECORDED in the replay object ("reproduced"), nothing is suppressed: the one
+            # load-sensitive answer of earlier rounds had its root in the driver (owner's finish racing with a
+            # reader whose waiting is virtual) and is fixed there
             confirmed, unconfirmed = {}, 0
             if not case:
                 for pf in pfails:
                     dl = line_of(pf)
                     hid = dl[1] if len(dl) > 1 else "0"
-                    if (field(pf, "class") or "none") != "none" or hid in confirmed or len(confirmed) >= 8:
+                    if hid in confirmed or len(confirmed) >= 5:
                         continue
-                    def fails_again():
-                        r2, e2 = run_pipeline(exe, modelrun, env, [seed, hid, tier])
-                        if e2:
-                            return True, False
-                        fl = [l for l in r2[1].splitlines() if l.startswith("PROPFAIL")]
-                        # only back-off exhaustion / hang answers (load sensitive), no wrong value?
-                        soft = bool(fl) and all(("=>\terr:resolve lock timeout" in l or "=>\terr:region unavailable" in l
-                                                 or "=>\terr:backoff" in l or "=>\terr:hang" in l or "=>\terr:skipped" in l) for l in fl)
-                        return bool(fl), soft
-                    again, soft = fails_again()
-                    if again and soft:
-                        # an answer "gave up waiting" depends on the machine load: it must reproduce twice more
-                        again = fails_again()[0] and fails_again()[0]
-                    confirmed[hid] = again
+                    r2, e2 = run_pipeline(exe, modelrun, env, [seed, hid, tier])
+                    confirmed[hid] = bool(e2) or any(l.startswith("PROPFAIL") for l in r2[1].splitlines())
                 stats["replayed_failing_histories"] = len(confirmed)
             for pf in pfails:
                 dl = line_of(pf)
                 hid0 = dl[1] if len(dl) > 1 else "0"
-                if (field(pf, "class") or "none") == "none" and confirmed.get(hid0) is False:
+                if confirmed.get(hid0) is False:
                     unconfirmed += 1
-                    continue
                 failed_lines.add("\t".join(dl))
                 cls = field(pf, "class") or "none"
                 key = (pf[0], cls)
@@ -157,7 +144,7 @@ def main(tier, replay):
                              "implementation": dl[dl.index("=>") + 1] if "=>" in dl else "",
                              "scan_rpcs": dl[dl.index("=>") + 2] if "=>" in dl and len(dl) > dl.index("=>") + 2 else "",
                              "expected": field(pf, "expected"),
-                             "history": history_of(ll, hid),
+                             "history": history_of(ll, hid), "reproduced_on_replay": confirmed.get(hid),
                              "what": "the implementation's answer differs from read_at on the MVCC truth (C05 conclusion violated)"})
             stats["unconfirmed"] = unconfirmed
             n_corr = 0
